@@ -101,6 +101,15 @@ func runLimitsMode() {
 		}
 		cfg := &recgen.Cfg{NoBigLens: r.Chance(2, 3), MaxCalls: 20, DictHeavy: true, NoFrozen: r.Chance(1, 2), DictResets: true}
 		p := genParams{writes: 4 + r.Intn(25), maxMut: 2, flushProb: r.Intn(4)}
+		if i%6 == 4 {
+			// small batches, a Flush after every Write, a limit that several batches reach only
+			// together (what an exporter does): the limit counts across Flush
+			p = genParams{writes: 20 + r.Intn(30), maxMut: 1, flushProb: 16}
+			cfg.MaxCalls, cfg.NoBigLens = 6, true
+			o.frameSize, o.flags = 0, 0
+			o.dictSize = []uint{200, 600, 2000}[r.Intn(3)]
+			stats["limits-flush-every-write"]++
+		}
 		name := fmt.Sprintf("lim-%d", i)
 		note("case %s", name)
 		o.stat()
